@@ -25,4 +25,24 @@ def heldThroughout (f : Func) : Bool :=
     f.lockCalls == [(m, "Lock"), (m, "Unlock")]
   | _ => false
 
+/-! ### use of a shared *os.File by a transform goroutine
+
+  The upload transforms stream the input from a goroutine while the caller keeps the same *os.File for Apply.  A consumer may
+  stop reading before the stream ends, so the goroutine can still be reading when Apply seeks and copies the file: the
+  goroutine must not go through the file offset.  `positional` = every use is positional (ReadAt, a section reader, the
+  directory locator which takes an io.ReaderAt), or reads metadata, or is the size query `Seek(0, io.SeekEnd)` at the very
+  start (before the consumer can have returned). -/
+
+structure FileUse where
+  name : String
+  methods : List (String × String)      -- (method, argument text) of calls on the file itself
+  passedTo : List String                -- callees that receive the file as an argument
+  escapes : List String                 -- assignments of the file to another variable (not followed: rejected)
+  deriving Repr
+
+def positional (u : FileUse) : Bool :=
+  u.methods.all (fun (m, a) => m == "ReadAt" || m == "Stat" || m == "Name" || (m == "Seek" && a == "0, io.SeekEnd")) &&
+  u.passedTo.all (fun c => c == "io.NewSectionReader" || c == "FindDirectory") &&
+  u.escapes.isEmpty
+
 end Relic.LockSpan
